@@ -93,6 +93,15 @@ PLAN = {
             {"run": "TestC07_Known"},
         ],
     },
+    "C08": {
+        "wtf": True,
+        "quick": [
+            {"run": "TestC08_Save", "checks": 150},
+        ],
+        "thorough": [
+            {"run": "TestC08_Save", "checks": 6000, "shards": 12, "timeout": 3000},
+        ],
+    },
     "C10": {
         "quick": [
             {"run": "TestC10_Totality", "checks": 4000},
